@@ -46,7 +46,7 @@ func init() {
 		Families: func(tier string) []Family {
 			return advFamilies(tier, advCfg{txVariants: advTxVariants, annVariants: advAnnVariants},
 				scn.Flags{Blocks: true, Time: true, Restart: true, MaxTime: 2, MaxBlocks: 3, NoCsvJump: true, NoWinJump: true},
-				mc.Bounds{MaxDepth: 8, MaxDev: 2, Budget: 100 * time.Second, NoCrash: true},
+				mc.Bounds{MaxDepth: 9, MaxDev: 2, Budget: 100 * time.Second, NoCrash: true},
 				mc.Bounds{MaxDepth: 10, MaxDev: 3, Budget: 14 * time.Minute}, pickBackends(tier))
 		},
 		Oracles:      []scn.Oracle{oracleC01},
